@@ -71,6 +71,21 @@ CHECKS = {
          "For every (min_size, start-up size, open mode) combination around the boundary the monitor observes during which append a rotation happens and what the newest archive holds; concurrent first appends from 2-16 threads are judged after join.",
          "Trusted: directory model. Thread schedules are sampled; Miri seeds in thorough.",
          "DESIGN.md §4 C17"),
+ "C08": ("fault_enumeration",
+         "runtime fault injection at verif_hooks points inside rotate(): crash images (directory copies) and planted filesystem obstacles at every step of every rotation, judged by the stream oracle and a retained-chunk check; real abort()ing children validate the images (thorough)",
+         "For every generated history, every hook point (each archive shift and the final move/compress) of every rotation is used once as the point of process death and once as the point of a filesystem fault, with both continuations (same appender / restarted appender). The append must return Err without panicking; no acknowledged record may be lost at the fault, with the obstacle in place, or after recovery; rotation must work again once the obstruction is gone.",
+         "Exhaustive over the hook points of each history; histories (window 1-4, base 0/1, both open modes, pre/post triggers) are sampled. Faults are non-empty directories at a step's destination; EIO/ENOSPC and power loss are not modelled.",
+         "DESIGN.md §4 C08"),
+ "C19": ("exploration",
+         "runtime monitor: location of the file actually created by FileAppender::build / RollingFileAppender::build / FixedWindowRoller::roll compared with a single-pass reference expansion",
+         "Path strings are assembled from literal text, stray syntax characters, well-formed references to set / unset / empty variables, malformed references and strings where a substitution creates reference-looking text; the created file or the whole archive window (count+1 rolls) must sit exactly at the reference expansion.",
+         "Trusted: reference expander in c19.rs. Environment is set once before any worker thread starts. Values are '$'-free; '{}' in roller inputs is skipped.",
+         "DESIGN.md §4 C19"),
+ "C20": ("exploration",
+         "runtime monitor: serde_yaml / serde_json deserialisation of the real config structs under a panic trap, compared with 128-bit reference arithmetic; small limits observed behaviourally",
+         "Literals are generated on the overflow boundaries (2^64/1024^k, 2^63), in every unit and letter case, with 0-3 spaces or a tab, in string and integer scalar form, plus negative, fractional, junk and near-miss units; the parsed value (from the Debug rendering) or the rejection must match the reference.",
+         "Trusted: 128-bit reference arithmetic; Debug rendering of SizeTriggerConfig / TimeTriggerConfig. Outer whitespace and integer refresh_rate are don't-care.",
+         "DESIGN.md §4 C20"),
 }
 
 NOT_YET = {}
